@@ -163,7 +163,10 @@ def classify(h, parsed, rc, timed_out):
                 if sline not in got:
                     return "inconclusive", "stub not confirmed by Kani: " + sline
         sat = [c for c in parsed["covers"] if c["status"] == "SATISFIED"]
-        if len(sat) < h.covers or len(sat) < len(parsed["covers"]):
+        # UNREACHABLE = statically dead (e.g. the other arm of an `if Q::OVERFLOW`): tolerated only
+        # beyond the number of witnesses the registry demands; UNSATISFIABLE is never tolerated
+        unsat = [c for c in parsed["covers"] if c["status"] == "UNSATISFIABLE"]
+        if len(sat) < h.covers or unsat:
             missing = [c["desc"] for c in parsed["covers"] if c["status"] != "SATISFIED"]
             return "vacuous", "witness not satisfied: %s (have %d, need %d)" % (missing, len(sat), h.covers)
         return "pass", ""
